@@ -138,6 +138,7 @@ def run_case(case, obs=None):
     elif kind == "blob":
         _, bk, length, offset, trail, pat, with_bits, order = case
         unit = {"b": 1, "w": 2, "dw": 4}[bk]
+        bk = bk.encode("ascii").decode("ascii")     # an equal string built at run time (not the interned literal)
         nbytes = length * unit
         buflen = offset + nbytes + trail + (2 if with_bits else 0)
         value = bytes((0x11 * (i + 1)) & 0xFF for i in range(nbytes))
@@ -175,6 +176,8 @@ def run_case(case, obs=None):
         pos = 1
         for i, (bk, length) in enumerate(specs):
             n = length * unit[bk]
+            if i % 2:
+                bk = bk.encode("ascii").decode("ascii")     # run-time string, equal but not identical to the literal
             lay["k%d" % i] = (bk, pos, length)
             data["k%d" % i] = bytearray((0x21 * (i + 1) + j) & 0xFF for j in range(n))
             exp_parts.append((pos, bytes(data["k%d" % i])))
